@@ -180,7 +180,8 @@ c06_g3!(c01_c02_c06_q_g_rrects_both, c01_c02_c06_q_g_rrects_fill, c01_c02_c06_q_
     [(RoundedRectangle::with_equal_corners(Rectangle::new(A0, Size::new(6, 5)), Size::new(2, 2)), 1, Inside),
      (RoundedRectangle::with_equal_corners(Rectangle::new(A1, Size::new(4, 6)), Size::new(1, 2)), 2, Inside)]);
 c06_g3!(c01_c02_c06_q_g_rects_both, c01_c02_c06_q_g_rects_fill, c01_c02_c06_q_g_rects_stroke, true, 40,
-    [(Rectangle::new(A0, Size::new(4, 3)), 1, Inside), (Rectangle::new(A1, Size::new(3, 4)), 2, Center), (Rectangle::new(A0, Size::new(2, 5)), 3, Inside), (Rectangle::new(A1, Size::new(0, 2)), 1, Outside)]);
+    [(Rectangle::new(A0, Size::new(4, 3)), 1, Inside), (Rectangle::new(A1, Size::new(3, 4)), 2, Center), (Rectangle::new(A0, Size::new(2, 5)), 3, Inside), (Rectangle::new(A1, Size::new(0, 2)), 1, Outside),
+     (Rectangle::new(A0, Size::new(3, 6)), 2, Inside), (Rectangle::new(A1, Size::new(1, 5)), 3, Center)]);
 #[cfg(feature = "thorough")]
 c06_g3!(c01_c02_c06_t_g_circles2_both, c01_c02_c06_t_g_circles2_fill, c01_c02_c06_t_g_circles2_stroke, true, 90,
     [(Circle::new(A0, 8), 2, Center), (Circle::new(A1, 7), 3, Inside), (Circle::new(A0, 1), 1, Center), (Circle::new(A1, 6), 0, Center), (Circle::new(A0, 4), 5, Inside)]);
@@ -293,11 +294,13 @@ c01_g!(c01_c02_q_g_triangles_fill, 24, [
 ]);
 // stroked triangles go through the thick-stroke join machinery even for width 1: tiny triangle in the
 // quick tier, larger ones thorough
-c01_g!(c01_c02_q_g_triangle_stroke1, 16, [
+#[cfg(feature = "thorough")]
+c01_g!(c01_c02_t_g_triangle_stroke1, 16, [
     (tri_s(), |f, s| style(1, StrokeAlignment::Center, Some(f), Some(s))),
 ]);
 // fill colour set, stroke width > 0 but NO stroke colour
-c01_g!(c01_c02_q_g_triangle_fill_nostroke_w1, 16, [
+#[cfg(feature = "thorough")]
+c01_g!(c01_c02_t_g_triangle_fill_nostroke_w1, 16, [
     (tri_s(), |f, _s| style(1, StrokeAlignment::Inside, Some(f), None)),
 ]);
 #[cfg(feature = "thorough")]
@@ -315,3 +318,27 @@ c01_g!(c01_c02_t_g_arc_sector, 60, [
     (Sector::new(Point::new(0, 0), 6, Angle::from_degrees(0.0), Angle::from_degrees(90.0)), |f, s| style(1, StrokeAlignment::Inside, Some(f), Some(s))),
     (Arc::new(Point::new(-2, -1), 5, Angle::from_degrees(45.0), Angle::from_degrees(180.0)), |_f, s| PrimitiveStyle::with_stroke(s, 1)),
 ]);
+
+/// C02 for thick polylines (one segment running down-left, and a bend): everything drawn through
+/// pixels() lies inside the styled bounding box
+macro_rules! c02_g_bbox {
+    ($name:ident, $unw:expr, [$(($v:expr, $w:expr)),+ $(,)?]) => {
+        #[cfg_attr(kani, kani::proof, kani::unwind($unw))]
+        pub fn $name() {
+            let q = point(5);
+            note!("q", q);
+            $( {
+                let st = Polyline::new(&$v).into_styled(PrimitiveStyle::with_stroke(Gray8::new(1), $w));
+                note!("vertices", $v); note!("width", $w);
+                let mut hit = false;
+                for Pixel(p, _) in st.pixels() { if p == q { hit = true; } }
+                note!("bounding_box", st.bounding_box());
+                if hit { check!(in_rect(&st.bounding_box(), q), "C02.inside_bbox"); }
+            } )+
+            reach!(true, "reach.end");
+        }
+    };
+}
+const PL_DL: [Point; 2] = [Point::new(3, 0), Point::new(0, 4)];
+const PL_UR: [Point; 2] = [Point::new(0, 3), Point::new(4, 0)];
+c02_g_bbox!(c02_q_g_thick_polyline_bbox, 24, [(PL_DL, 3), (PL_UR, 2)]);
